@@ -174,7 +174,7 @@ PIPELINES = {
     # distinguished-name container: all edit histories of a fixed length + random long walks
     "dn": {
         "variants": ["ring"],
-        "mc": [{"module": "MC_Names", "workers": 4}],
+        "mc": [{"module": "MC_Names", "workers": 4}, {"module": "NamesInd", "mode": "apalache", "tiers": ["thorough"]}],
         "drivers": [
             {"name": "histories", "cmd": ["dn-cases", "{cases}", "{out}"], "cases": "MC_Names", "stateful": True, "chunk": 12000},
             {"name": "walks", "cmd": ["dn-random", "{out}", "{walks}", "200"], "stateful": True, "chunk": 12000, "random": True},
@@ -249,7 +249,7 @@ PROPS = {
               "every output channel of Secrets!Channels (the command line tool under both back ends: stdout/stderr of successful runs and of runs that cannot create the output directory, a key file or a certificate file at each of the four write points, and its certificate files; artefact DER/PEM, public key exports, Debug renderings of 9 types, Display/Debug of errors from truncated / corrupted / mislabelled / legacy-labelled / misfitting key loads through every loader and from key material offered to the certificate, CSR and SPKI parsers, key-then-certificate bundles) x key algorithm (Ed25519, P-256, P-384, RSA-2048, P-521 under aws-lc-rs) x back end x loading path; each channel searched for every 12-byte window of the private scalar / seed / RSA d, p, q, dP, dQ, qInv in raw, hex (any case, separators, both nibble alignments), decimal-list and base64 (4 alignments, both alphabets) form; the export functions must be found to contain the key (non-vacuity of the search); coverage predicate: every channel seen; distinct by (channel, algorithm, back end, loading path)",
               ops=["Channel"], exhaustive=False),
     "C20": _p("model_checking", ["dn", "sessions"], ["C20."],
-              "cases = every sequence of exactly MaxOps (4 quick / 5 thorough) push/remove operations over 3-4 attribute types x 2 values (MC_Names.Histories), each followed by equality probes against freshly built names (same enumeration, proper prefix, reversed, last value changed) and by issuing a certificate whose subject is decoded; plus every history of 3 operations over 4 types (one a custom type carrying a standard OID) and 3 values (one empty); plus random walks of length 200 over 10 types and 6 value kinds with empty values; distinct by (operation, arguments) event",
+              "thorough tier: the map invariants as an inductive invariant discharged by Apalache (spec/ind/NamesInd.tla: histories of any length over 4 attribute types; TLC-checked equivalence of its operators with Names.tla); cases = every sequence of exactly MaxOps (4 quick / 5 thorough) push/remove operations over 3-4 attribute types x 2 values (MC_Names.Histories), each followed by equality probes against freshly built names (same enumeration, proper prefix, reversed, last value changed) and by issuing a certificate whose subject is decoded; plus every history of 3 operations over 4 types (one a custom type carrying a standard OID) and 3 values (one empty); plus random walks of length 200 over 10 types and 6 value kinds with empty values; distinct by (operation, arguments) event",
               ops=["DnPush", "DnRemove", "DnEq", "DnEncode"], exhaustive=False),
     "C04": _p("model_checking", ["cert", "time", "csr", "crl"], ["C04."],
               "union of the certificate (MC_Cert), time (MC_Time), CSR (MC_Csr) and CRL (MC_Crl) case sets; every artefact is walked by the strict DER reader from the outermost element into every known extension value; value-dependent forms (key-usage named bits for all 512 sets, INTEGER for every serial class, BasicConstraints, SET OF order of CSR attributes) are recomputed in TLA+",
